@@ -28,6 +28,13 @@ CHECKS["C05"] = dict(engine="E2+E3", level="exploration", technique="determinist
    text="Sequential histories biased to aliasing operands (root, self, ancestor/descendant, hard-link aliases, symlinked paths, nested identical names) on MemFS and OrefaFS, each call executed on a simulated client, with the monitor evaluated after every call; concurrent programs under the seeded scheduler with the monitor evaluated on the final tree. Monitor: internal structure walk (hook H4), API-level walk (termination, sorted duplicate-free listings, listed iff Lstat, Nlink = SameFile class size, identical content/attributes through all links), failed calls leave the snapshot unchanged (RemoveAll excepted), successful calls change only the closure of their operands. Sampling, not proof.",
    note="trusted: the harness's own resolver for the closure of operands; snapshot through the public API; VerifCheck walkers (verif-tagged, in /repo); both OS types are covered for the Linux type only in this build (Windows type: C17)", ref="3/C05")
 
+CHECKS["C09"] = dict(engine="E3", level="exploration", technique="deterministic twin simulation: wrapper vs base, full base snapshot (with mtimes) around every call",
+   text="Seeded histories of every VFS and File method (OpenFile with arbitrary flag combinations, handle methods on returned files, Sub followed by calls on the result, recursively) through rofs.New(base) over MemFS (with symbolic and hard links) and OrefaFS bases prepared by a seeded direct history. Around every call the whole base snapshot including modification times must be identical; mutators must fail with a permission-class error; read-only calls must equal the same call on the base (twin handles). Sampling, not proof.",
+   note="no schedule or fault dimension exists in the statement; the simulator contributes seeded world, workload, shrinking, replay. Chdir/SetUMask forwarding is outside the statement's list", ref="3/C09")
+CHECKS["C10"] = dict(engine="E3", level="exploration", technique="deterministic twin simulation with adversarial path strings: BasePathFS(base,B) vs standalone twin, outside-B snapshot around every call",
+   text="Seeded histories of path-taking and handle calls with paths over {names, '.', '..', '/', '//', B's own name} absolute and relative, Chdir mixed in, the base's working directory left inside B, outside B or in a directory whose name extends B's, issued through basepathfs.New(base,'/a') and on a standalone twin whose root holds B's content. After every call: everything outside B in the base (with mtimes, and B's own existence) unchanged; outcome, data, Getwd/Abs/Glob results and the paths embedded in PathError/LinkError equal the twin's after normalisation to absolute clean virtual paths; File.Name is the virtual path opened; virtual tree equals the twin's tree. Sampling, not proof.",
+   note="twin = same implementation, so shared sequential defects cancel (C01's). Narrow relaxations listed in DESIGN.md section 8 (error precedence when the root is renamed, handle names derived from the opening string, empty path)", ref="3/C10")
+
 NA = {
  "C13": "Clean, Join, Split, Dir, Base, IsAbs, Rel, Abs, FromSlash, ToSlash, VolumeName, Match and PathIterator are pure functions of their string arguments and the OS-type constant: there is no schedule, clock, I/O, fault or shared state for a simulator to control; generating strings is input fuzzing, a different technique (DESIGN.md section 4).",
 }
